@@ -31,7 +31,7 @@ theorem seatOpts_complete (d : Option Seat) : d ∈ seatOpts := by
   | some p => cases p <;> simp [seatOpts]
 
 /-- for EVERY contract value -/
-theorem contract_translated (c : Contract) : contractAgrees c = true :=
+theorem contract_class_translated (c : Contract) : contractAgrees c = true :=
   contract_translated_is_model c (bidOpts_complete _) (seatOpts_complete _)
 
 end Bridge.Translated
